@@ -1,6 +1,7 @@
 package main
 
 import (
+	"context"
 	"crypto/sha256"
 	"encoding/hex"
 	"fmt"
@@ -239,6 +240,37 @@ func c08Run(c *core.Ctx) *core.Result {
 		return r
 	}
 	r.Count("schedule_runs", 2)
+	if sched%4 == 2 {
+		// the same case with a peer that makes the session fail while many
+		// files are in flight (all ids requested in one burst, then one of
+		// them again): once Send has returned the stream is the caller's, a
+		// stream call of a worker that is still in flight, or starts later,
+		// overlaps whatever the caller does with it next
+		sf := newSynthFS(src)
+		sf.ChunkMax = 4096
+		rr := newRefReceiver("burst", "duplicate", R.Fork())
+		gf := R.Fork()
+		fres := runSync(syncOpt{Cfg: wire.Config{Cap: capn, Hook: func(end, op string, idx int64, phase int) {
+			if phase == 0 {
+				jitter(gf, delayStream+1)
+			}
+		}}, Src: sf, TeardownWhenStuck: true, Timeout: 240 * 1e9,
+			RecvFn: func(ctx context.Context, s fsutil.Stream) error { return rr.run(ctx, s) }})
+		if fres.Deadlock || fres.TimedOut {
+			r.Count("failing_sessions_not_judged", 1)
+		} else {
+			r.Count("failing_sessions_with_files_in_flight", 1)
+			if fres.SendErr == nil {
+				r.Count("failing_sessions_where_send_succeeded", 1)
+			}
+			if n, late := fres.Pair.S.InFlightAtReturn(), fres.Pair.S.LateOps(); n > 0 || len(late) > 0 {
+				r.ViolateD("sender-stream-in-use-after-return", map[string]any{"schedule": desc, "late_operations": late, "send_err": fmt.Sprint(fres.SendErr)}, "%s, duplicate request while files are in flight: when Send returned (%v) %d stream call(s) of its workers were still in flight on its endpoint and %d more were started afterwards; the caller's next use of the stream overlaps them", desc, fres.SendErr, n, len(late))
+			}
+			if ov := fres.Pair.Overlaps(); len(ov) > 0 {
+				r.ViolateD("stream-overlap", trunc(ov, 3), "%s (failing session): %d overlapping stream calls on one endpoint observed, first: %s", desc, len(ov), strings.SplitN(ov[0], "\n", 2)[0])
+			}
+		}
+	}
 	r.AddSet("interleavings", ref.fp)
 	r.AddSet("interleavings", out.fp)
 	r.AddSet("schedule_parameters", fmt.Sprintf("cap%d/p%d/%d/%d/%d", capn, procs, delayStream, delayRead, delayCb))
